@@ -16,13 +16,14 @@ def build_replay(repo):
     if os.path.realpath(repo) != '/repo':
         # scratch copy of the replay crate pointing at the other tree
         import shutil
-        dst = os.path.join(VERIF, '.cache', 'replay-alt')
+        key = hashlib.sha1(os.path.realpath(repo).encode()).hexdigest()[:8]   # one scratch crate + target per scratch tree
+        dst = os.path.join(VERIF, '.cache', 'replay-alt-' + key)
         shutil.rmtree(dst, ignore_errors=True)
         shutil.copytree(src, dst, ignore=shutil.ignore_patterns('target'))
         t = open(os.path.join(dst, 'Cargo.toml')).read().replace('path = "/repo"', f'path = "{os.path.realpath(repo)}"')
         open(os.path.join(dst, 'Cargo.toml'), 'w').write(t)
         src = dst
-        env['CARGO_TARGET_DIR'] = TARGET + '-alt'
+        env['CARGO_TARGET_DIR'] = TARGET + '-alt-' + key
     p = subprocess.run(['cargo', 'build', '--offline', '--quiet'], cwd=src, env=env, capture_output=True, text=True)
     if p.returncode != 0:
         return None, p.stderr[-2000:]
